@@ -422,7 +422,20 @@ def step (d : DState) (tok : List String) : DState × List String :=
               if d.src then viaSrc Generated.CompareSrc.is_more_specific a b else bit (isMoreSpecific der a b))
             let bs := pairs.map (fun (a, b) =>
               if d.src then viaSrc Generated.CompareSrc.is_base a b else bit (isBase der a b))
-            s!"cmp {m.key} n={vps.length} ms={String.join ms} base={String.join bs}"))
+            -- best() on every prefix and every suffix of the definitions (by position)
+            let n := vps.length
+            let msIdx := fun (a b : Nat) => isMoreSpecific der (vps.getD a []) (vps.getD b [])
+            let sets := ((List.range n).map (fun k => List.range (k + 1))) ++
+              ((List.range (n - 1)).map (fun k => (List.range n).drop (k + 1)))
+            let showL := fun (l : List Nat) => ".".intercalate (l.map toString)
+            let bests := sets.map (fun cands =>
+              if d.src then
+                match Pick.run msIdx Generated.BestSrc.best cands with
+                | .returned l => showL l
+                | .normal => "?"
+                | .fault _ => "F"
+              else showL (best msIdx cands))
+            s!"cmp {m.key} n={vps.length} ms={String.join ms} base={String.join bs} best={"|".intercalate bests}"))
       | "offsets", _ =>
         match s.inst with
         | none => (d, [])
